@@ -322,8 +322,53 @@ def run_life(prop, tier, seed, keep=False):
     return rc
 
 
+def parse_scheds(out):
+    import re
+    ss = []
+    for ln in out.splitlines():
+        m = re.match(r'<<"SCHED", "(.*)">>$', ln.strip())
+        if m:
+            ss.append(json.loads(json.loads('"' + m.group(1) + '"')))
+    return ss
+
+
 def once_stage(w, tier, seed, ev):
-    return 0
+    """Concurrent first use of a run-once function: all interleavings of the protocol in Once.tla, each
+    forced on the real code through the gate hooks; schedules only the unlocked protocol allows must be
+    impossible to follow; free-running rounds are validated the other way."""
+    import random
+    q = tier == "quick"
+    rnd = random.Random(seed)
+    rc = 0
+    for (g, uses, cap) in ([(2, 1, 100), (2, 2, 200), (3, 1, 300)] if q else [(2, 1, 100), (2, 2, 200), (3, 1, 300), (3, 2, 3000), (4, 1, 3000)]):
+        consts = {"G": str(g), "Uses": str(uses), "Bugs": "{}"}
+        write_cfg(w, "O.cfg", "Spec", ["AtMostOnce", "SameResult", "MutualExclusion", "EmitSched"], constants=consts, post=None, alias=None)
+        res = w.tlc("Once.tla", "O.cfg", workers=vlib.NCPU, timeout=1200)
+        ev.add_tlc("once-G%d-U%d" % (g, uses), res, "model_checking")
+        if not res["ok"]:
+            raise Infra("Once model checking failed:\n" + res["out"][-2500:])
+        legal = parse_scheds(res["out"])
+        legalkeys = {json.dumps(x["steps"]) for x in legal}
+        if len(legal) > cap:
+            legal = rnd.sample(legal, cap)
+        # schedules of the protocol WITHOUT the lock that the locked protocol forbids
+        write_cfg(w, "OB.cfg", "Spec", ["EmitSched"], constants=dict(consts, Bugs='{"F9"}'), post=None, alias=None)
+        resb = w.tlc("Once.tla", "OB.cfg", workers=vlib.NCPU, timeout=1200)
+        adv = [dict(x, adv=True) for x in parse_scheds(resb["out"]) if json.dumps(x["steps"]) not in legalkeys]
+        adv = rnd.sample(adv, min(len(adv), 12 if q else 60))
+        vlib.write_json(w.path("sched.json"), legal + adv)
+        out = "once_%d_%d.ndjson" % (g, uses)
+        r = w.run_drive(["once", "-in", "sched.json", "-g", str(g), "-uses", str(uses), "-free", "150" if q else "2000", "-out", out], timeout=3000)
+        log(r.stderr.strip())
+        ev.cov.setdefault("schedules_forced", 0)
+        ev.cov["schedules_forced"] += len(legal)
+        ev.cov.setdefault("adversarial_schedules", 0)
+        ev.cov["adversarial_schedules"] += len(adv)
+        rc = generic_trace_validate(w, "C11", "OnceTrace.tla", ["StepsLegal", "RunOK", "AtMostOnce", "SameResult", "MutualExclusion"],
+                                    consts, out, ev, lambda x: x.startswith('{"ev":"start"'), "once-trace-G%d-U%d" % (g, uses))
+        if rc:
+            break
+    return rc
 
 
 def run_resolver(prop, tier, seed, keep=False):
@@ -394,7 +439,8 @@ def generic_trace_validate(w, prop, module, invariants, constants, trace_file, e
     """Trace validation for the graph-layer specs: one TLC run, first violation reported with the
     execution (graph / history) it belongs to cut out of the ndjson file."""
     lines = open(w.path(trace_file)).read().splitlines()
-    cfg = write_cfg(w, "T_%s_%s.cfg" % (prop, label), "Spec", invariants, constants=dict(constants, TraceFile='"%s"' % trace_file))
+    cfg = write_cfg(w, "T_%s_%s.cfg" % (prop, label), "TSpec" if module == "OnceTrace.tla" else "Spec", invariants,
+                    constants=dict(constants, TraceFile='"%s"' % trace_file))
     res = w.tlc(module, cfg, workers=1, timeout=3000)
     ev.add_tlc(label, res, "trace_validation")
     nstart = sum(1 for x in lines if is_start(x))
